@@ -20,6 +20,8 @@ use hx_common::*;
 
 #[path = "c10/vect.rs"]
 mod vect;
+#[path = "c10/ro.rs"]
+mod ro;
 
 // ---------------------------------------------------------------------------------------------
 // dynamic view stack
@@ -34,6 +36,8 @@ pub trait DynView: IoBufMut {
     fn depth(&self) -> usize;
     /// some `Uninit` layer of the stack already exposes initialised bytes (it has been filled through)
     fn reused_uninit(&self) -> bool;
+    /// pointer and capacity of the root allocation *as the container itself reports them* (not via compio-buf)
+    fn root_alloc(&mut self) -> (*mut u8, usize);
 }
 
 pub type BV = Box<dyn DynView>;
@@ -54,6 +58,10 @@ impl DynView for Slice<BV> {
     fn reused_uninit(&self) -> bool {
         self.as_inner().reused_uninit()
     }
+
+    fn root_alloc(&mut self) -> (*mut u8, usize) {
+        self.as_inner_mut().root_alloc()
+    }
 }
 
 impl DynView for Uninit<BV> {
@@ -73,23 +81,44 @@ impl DynView for Uninit<BV> {
         catch(|| self.as_init().len()).map(|n| n > 0).unwrap_or(false)
             || self.as_inner().reused_uninit()
     }
+
+    fn root_alloc(&mut self) -> (*mut u8, usize) {
+        self.as_inner_mut().root_alloc()
+    }
 }
 
 macro_rules! root_impl {
-    ($($t:ty),*) => {$(
+    ($($t:ty => $cap:expr),*) => {$(
         impl DynView for $t {
             fn peel(self: Box<Self>) -> BV { self }
             fn root_len(&self) -> usize { self.as_init().len() }
             fn depth(&self) -> usize { 0 }
             fn reused_uninit(&self) -> bool { false }
+            fn root_alloc(&mut self) -> (*mut u8, usize) {
+                let f: fn(&mut $t) -> (*mut u8, usize) = $cap;
+                f(self)
+            }
         }
     )*};
 }
-root_impl!(Vec<u8>, BytesMut, Box<[u8]>, SmallVec<[u8; 8]>);
+root_impl!(
+    Vec<u8> => |v| (v.as_mut_ptr(), v.capacity()),
+    BytesMut => |v| (v.as_mut_ptr(), v.capacity()),
+    Box<[u8]> => |v| (v.as_mut_ptr(), v.len()),
+    SmallVec<[u8; 8]> => |v| (v.as_mut_ptr(), v.capacity()),
+    // wrappers compio-buf forwards through: `&'static mut B`, `Box<B>`
+    &'static mut [u8] => |v| (v.as_mut_ptr(), v.len()),
+    &'static mut Vec<u8> => |v| (v.as_mut_ptr(), v.capacity()),
+    Box<Vec<u8>> => |v| (v.as_mut_ptr(), v.capacity())
+);
 
 impl<const N: usize> DynView for [u8; N] {
     fn peel(self: Box<Self>) -> BV {
         self
+    }
+
+    fn root_alloc(&mut self) -> (*mut u8, usize) {
+        (self.as_mut_ptr(), N)
     }
 
     fn root_len(&self) -> usize {
@@ -108,6 +137,10 @@ impl<const N: usize> DynView for [u8; N] {
 impl<const N: usize> DynView for ArrayVec<u8, N> {
     fn peel(self: Box<Self>) -> BV {
         self
+    }
+
+    fn root_alloc(&mut self) -> (*mut u8, usize) {
+        (self.as_mut_ptr(), N)
     }
 
     fn root_len(&self) -> usize {
@@ -195,6 +228,28 @@ pub fn mk_root(kind: &str, len: usize, mem: &[u8]) -> Option<BV> {
             }
             let b: Box<[u8]> = mem.to_vec().into_boxed_slice();
             Some(Box::new(b))
+        }
+        "sref" => {
+            // `&'static mut [u8]` (leaked; a few bytes per case)
+            if len != cap {
+                return None;
+            }
+            let r: &'static mut [u8] = Box::leak(mem.to_vec().into_boxed_slice());
+            Some(Box::new(r))
+        }
+        "refvec" | "boxvec" => {
+            let mut v = Vec::with_capacity(cap);
+            if v.capacity() != cap {
+                return None;
+            }
+            v.extend_from_slice(mem);
+            v.truncate(len);
+            if kind == "boxvec" {
+                Some(Box::new(Box::new(v)))
+            } else {
+                let r: &'static mut Vec<u8> = Box::leak(Box::new(v));
+                Some(Box::new(r))
+            }
         }
         "arr" => {
             if len != cap {
@@ -418,7 +473,7 @@ impl Machine {
                     self.ri = RootInfo::of(&mut v, mem.len());
                     self.ri.monitor(ex, line);
                     self.kind = w[1].to_string();
-                    self.growable = matches!(w[1], "vec" | "bytesmut" | "smallvec");
+                    self.growable = matches!(w[1], "vec" | "bytesmut" | "smallvec" | "refvec" | "boxvec");
                     ex.tag(format!("root:{}", w[1]));
                     self.st = St::Buf(v);
                     self.state_line(ex, line)
@@ -657,23 +712,179 @@ impl Machine {
                 ex.tag("clear");
                 self.state_line(ex, line)
             }
-            ["extend", h] | ["wwrite", h] => {
+            ["query"] => {
+                ex.tag("query");
+                let St::Buf(v) = &mut self.st else { unreachable!() };
+                let o = observe(v, &self.ri);
+                let reused = (*v).reused_uninit();
+                let f = |r: Result<usize, String>| r.map(|x| x.to_string()).unwrap_or("panic".into());
+                let b = |r: Result<bool, String>| r.map(|x| if x { "1" } else { "0" }.to_string()).unwrap_or("panic".into());
+                let len = f(catch(|| (*v).buf_len()));
+                let capq = f(catch(|| (*v).buf_capacity()));
+                let empty = b(catch(|| (*v).is_empty()));
+                let filled_r = catch(|| (*v).is_filled());
+                let ptr = f(catch(|| self.ri.off((*v).buf_ptr())));
+                let mptr_r = catch(|| self.ri.off((*v).buf_mut_ptr() as *const u8));
+                // as_mut_slice = from_raw_parts_mut(buf_mut_ptr(), buf_len()): never build it outside the allocation
+                let ms = match (&o.init, &mptr_r) {
+                    (Ok((oi, li)), Ok(mo)) => {
+                        if mo + li > cap {
+                            ex.tag("as-mut-slice-oob");
+                            ex.fail(
+                                if reused { "F6:uninit-extend-oob" } else { "C10:as-mut-slice" },
+                                format!("{line} on {}: as_mut_slice() would be {mo}+{li}, beyond the allocation of {cap}", show_obs(&o)),
+                            );
+                            "ub".to_string()
+                        } else {
+                            match catch(|| {
+                                let s = (*v).as_mut_slice();
+                                (self.ri.off(s.as_ptr()), s.len())
+                            }) {
+                                Ok((so, sl)) => {
+                                    // law: the same bytes as as_init()
+                                    if (so, sl) != (*oi, *li) {
+                                        ex.fail(
+                                            if reused { "F6:uninit-reused-view" } else { "C10:as-mut-slice" },
+                                            format!("{line} on {}: as_mut_slice() is {so}+{sl}, as_init() is {oi}+{li}", show_obs(&o)),
+                                        );
+                                    }
+                                    format!("{so}+{sl}")
+                                }
+                                Err(_) => "panic".into(),
+                            }
+                        }
+                    }
+                    _ => "panic".into(),
+                };
+                // law: is_filled <=> buf_len == buf_capacity; is_empty <=> buf_len == 0
+                if let (Ok(fl), Ok((_, li)), Ok((_, lu))) = (&filled_r, &o.init, &o.uninit) {
+                    if *fl != (li == lu) {
+                        ex.fail("C10:query", format!("{line}: is_filled() = {fl} with len {li} cap {lu}"));
+                    }
+                }
+                format!("q len={len} cap={capq} empty={empty} filled={} ptr={ptr} mptr={} ms={ms}", b(filled_r), f(mptr_r))
+            }
+            ["ensure"] => {
+                let St::Buf(v) = &mut self.st else { unreachable!() };
+                let before = observe(v, &self.ri);
+                let reused = (*v).reused_uninit();
+                let r = catch(|| {
+                    let s = (*v).ensure_init();
+                    (self.ri.off(s.as_ptr()), s.len())
+                });
+                match r {
+                    Err(_) => {
+                        ex.tag("ensure-panic");
+                        if !reused {
+                            ex.fail("C10:ensure-init", format!("{line} on {}: ensure_init panicked", show_obs(&before)));
+                        } else {
+                            ex.fail("F6:uninit-reused-view", format!("{line} on {}: ensure_init panics (as_init/as_uninit panics or buf_len > as_uninit().len())", show_obs(&before)));
+                        }
+                        "panic".into()
+                    }
+                    Ok((so, sl)) => {
+                        ex.tag("ensure");
+                        let after = observe(v, &self.ri);
+                        // law: returns the whole writable region, now all initialised: the prefix is kept, the rest is
+                        // zero; nothing else changes, set_len is not called
+                        let mut bad = vec![];
+                        if let (Ok((_, li)), Ok((ou, lu))) = (before.init, before.uninit) {
+                            let mut expect = before.mem.clone();
+                            if li <= lu {
+                                for x in &mut expect[ou + li..ou + lu] {
+                                    *x = 0;
+                                }
+                            }
+                            if after.mem != expect {
+                                bad.push(format!("memory {} expected {}", hex(&after.mem), hex(&expect)));
+                            }
+                            if (so, sl) != (ou, lu) {
+                                bad.push(format!("returned {so}+{sl}, writable region is {ou}+{lu}"));
+                            }
+                        }
+                        if after.root_len != before.root_len || after.init != before.init || after.uninit != before.uninit {
+                            bad.push("lengths / ranges changed".to_string());
+                        }
+                        if !bad.is_empty() {
+                            ex.fail(if reused { "F6:uninit-reused-view" } else { "C10:ensure-init" }, format!("{line} on {}: {}", show_obs(&before), bad.join("; ")));
+                        }
+                        format!("ens:{so}+{sl} {}", self.state_line(ex, line))
+                    }
+                }
+            }
+            ["copyw", a, b, c] => {
+                let (Ok(a), Ok(b), Ok(c)) = (a.parse::<usize>(), b.parse::<usize>(), c.parse::<usize>()) else { return "bad-op".into() };
+                let St::Buf(v) = &mut self.st else { unreachable!() };
+                let before = observe(v, &self.ri);
+                let Ok((ou, lu)) = before.uninit else { return "panic".into() };
+                let in_range = a <= b && b <= lu && c + (b - a) <= lu;
+                match catch(|| (*v).copy_within(a..b, c)) {
+                    Err(_) => {
+                        ex.tag("copyw-panic");
+                        if in_range {
+                            ex.fail("C10:copy-within", format!("{line} on {}: in-range copy_within panicked", show_obs(&before)));
+                        }
+                        "panic".into()
+                    }
+                    Ok(()) => {
+                        ex.tag("copyw");
+                        // law: slice::copy_within on the view's region, everything else untouched
+                        let mut expect = before.mem.clone();
+                        if in_range {
+                            expect[ou..ou + lu].copy_within(a..b, c);
+                        }
+                        let after = observe(v, &self.ri);
+                        if !in_range || after.mem != expect || after.root_len != before.root_len {
+                            ex.fail("C10:copy-within", format!("{line} on {}: memory {} expected {}", show_obs(&before), hex(&after.mem), hex(&expect)));
+                        }
+                        self.state_line(ex, line)
+                    }
+                }
+            }
+            ["reserve", ..] | ["reservex", ..] if w.len() == 2 || w.len() == 3 => {
+                let Ok(n) = w[1].parse::<usize>() else { return "bad-op".into() };
+                let Some(ans) = parse_ans(w.get(2).copied()) else { return "bad-op".into() };
+                self.do_reserve(ex, line, n, w[0] == "reservex", ans)
+            }
+            ["extend", h] | ["wwrite", h] | ["extend", h, _] | ["wwrite", h, _] => {
+                let Some(ans) = parse_ans(w.get(2).copied()) else { return "bad-op".into() };
                 let data = unhex(h);
                 let k = data.len();
                 let St::Buf(v) = &mut self.st else { unreachable!() };
-                let before = observe(v, &self.ri);
+                let mut before = observe(v, &self.ri);
                 let reused_before = (*v).reused_uninit();
                 let Ok((oi, li)) = before.init else { return "ext:panic".into() };
-                // would the real call reallocate a growable root? (allocator-dependent: not issued)
+                // would the real call reallocate a growable root? The new capacity is the container's / allocator's
+                // choice: it is issued only when the line carries the answer (or `?` = report it)
                 let growable = self.growable;
+                let mut cap = cap;
+                let mut probed: Option<usize> = None;
                 match catch(|| would_grow(v, k, cap, growable)) {
                     Ok(true) => {
-                        ex.tag("extend-grow");
-                        return "ext:grow".into();
+                        if ans == Ans::None {
+                            ex.tag("extend-grow");
+                            return "ext:grow".into();
+                        }
+                        // the reserve extend_from_slice performs first (a second reserve(k) is then a no-op)
+                        if !catch(|| IoBufMut::reserve(&mut **v, k).is_ok()).unwrap_or(false) {
+                            return "ext:panic".into();
+                        }
+                        let newcap = self.refresh_root();
+                        ex.tag("extend-grown");
+                        if ans == Ans::Probe {
+                            probed = Some(newcap);
+                        } else if ans != Ans::Cap(newcap) {
+                            return format!("ext:cap-is:{newcap}");
+                        }
+                        self.monitor_grown(ex, line, &before, k);
+                        cap = newcap;
+                        let St::Buf(v) = &mut self.st else { unreachable!() };
+                        before = observe(v, &self.ri);
                     }
                     Ok(false) => {}
                     Err(_) => return "ext:panic".into(),
                 }
+                let St::Buf(v) = &mut self.st else { unreachable!() };
                 // the raw copy of extend_from_slice goes to buf_mut_ptr() + buf_len(): refuse to run it
                 // when that leaves the root allocation (only possible if reserve() said yes wrongly)
                 let reserve_ok = match catch(|| IoBufMut::reserve(&mut **v, k).is_ok()) {
@@ -746,11 +957,174 @@ impl Machine {
                             let sig = if reused_before { "F6:uninit-second-fill" } else { "C10:extend" };
                             ex.fail(sig, format!("{line} on {}: {}", show_obs(&before), bad.join("; ")));
                         }
+                        if let Some(c) = probed {
+                            return format!("ext:cap-is:{c}");
+                        }
                         format!("ext:ok {}", self.state_line(ex, line))
                     }
                 }
             }
             _ => "bad-op".into(),
+        }
+    }
+}
+
+/// the optional trailing token of `reserve` / `extend`: the capacity the container reports after growing
+#[derive(Clone, Copy, PartialEq, Debug)]
+pub enum Ans {
+    None,
+    Cap(usize),
+    /// `?`: perform the call and report the capacity (used by the generators, never in a finished case)
+    Probe,
+}
+
+fn parse_ans(t: Option<&str>) -> Option<Ans> {
+    match t {
+        None => Some(Ans::None),
+        Some("?") => Some(Ans::Probe),
+        Some(x) => x.parse().ok().map(Ans::Cap),
+    }
+}
+
+pub const HUGE: usize = 1 << 63;
+
+impl Machine {
+    /// after a growing reserve: new root pointer / capacity from the container; everything behind the initialised
+    /// prefix is (re)filled with the pattern 0xCC (a SmallVec that spills only copies `len` bytes)
+    fn refresh_root(&mut self) -> usize {
+        let St::Buf(v) = &mut self.st else { unreachable!() };
+        let (ptr, cap) = v.root_alloc();
+        let len = v.root_len().min(cap);
+        for i in len..cap {
+            unsafe { *ptr.add(i) = 0xCC };
+        }
+        self.ri = RootInfo { ptr, cap, reported_cap: Some(cap) };
+        cap
+    }
+
+    /// reserve law after a successful growth: initialised contents and length kept, capacity >= len + n, never smaller
+    fn monitor_grown(&mut self, ex: &mut Exec, line: &str, before: &Obs, n: usize) {
+        let St::Buf(v) = &mut self.st else { unreachable!() };
+        let after = observe(v, &self.ri);
+        let mut bad = vec![];
+        if after.root_len != before.root_len {
+            bad.push(format!("root len {} -> {}", before.root_len, after.root_len));
+        }
+        let l = before.root_len.min(after.mem.len());
+        if after.mem[..l] != before.mem[..l] {
+            bad.push("initialised contents changed".to_string());
+        }
+        if after.mem.len() < before.mem.len() {
+            bad.push(format!("capacity shrank {} -> {}", before.mem.len(), after.mem.len()));
+        }
+        if after.mem.len() < before.root_len + n {
+            bad.push(format!("capacity {} < len {} + additional {n}", after.mem.len(), before.root_len));
+        }
+        if !bad.is_empty() {
+            ex.fail("C10:reserve", format!("{line} on {}: {}", show_obs(before), bad.join("; ")));
+        }
+    }
+
+    fn do_reserve(&mut self, ex: &mut Exec, line: &str, n: usize, exact: bool, ans: Ans) -> String {
+        let cap = self.ri.cap;
+        let growable = self.growable;
+        let bytesmut = self.kind == "bytesmut";
+        let St::Buf(v) = &mut self.st else { unreachable!() };
+        let before = observe(v, &self.ri);
+        let reused = (*v).reused_uninit();
+        let reaches = match catch(|| IoBufMut::reserve(&mut **v, 0).is_ok()) {
+            Ok(r) => r,
+            Err(_) => return "res:panic".into(),
+        };
+        let needs_grow = reaches && growable && n > cap - before.root_len;
+        if needs_grow && n >= HUGE && bytesmut {
+            return "res:skip".into(); // BytesMut::reserve panics on overflow / aborts on allocation failure
+        }
+        if needs_grow && n < HUGE && ans == Ans::None {
+            ex.tag("reserve-need-cap");
+            return "res:need-cap".into();
+        }
+        #[derive(Debug)]
+        enum R {
+            Ok,
+            Unsupported,
+            Failed,
+            Mismatch(usize, usize),
+        }
+        let r = catch(|| {
+            if exact {
+                match IoBufMut::reserve_exact(&mut **v, n) {
+                    Ok(()) => R::Ok,
+                    Err(compio_buf::ReserveExactError::NotSupported) => R::Unsupported,
+                    Err(compio_buf::ReserveExactError::ReserveFailed(_)) => R::Failed,
+                    Err(compio_buf::ReserveExactError::ExactSizeMismatch { expected, reserved }) => R::Mismatch(expected, reserved),
+                }
+            } else {
+                match IoBufMut::reserve(&mut **v, n) {
+                    Ok(()) => R::Ok,
+                    Err(compio_buf::ReserveError::NotSupported) => R::Unsupported,
+                    Err(compio_buf::ReserveError::ReserveFailed(_)) => R::Failed,
+                }
+            }
+        });
+        let Ok(r) = r else { return "res:panic".into() };
+        let (_, newcap) = {
+            let St::Buf(v) = &mut self.st else { unreachable!() };
+            v.root_alloc()
+        };
+        let grown = newcap != cap;
+        if grown {
+            self.refresh_root();
+            if ans != Ans::Cap(newcap) {
+                return format!("res:cap-is:{newcap}");
+            }
+        }
+        let St::Buf(v) = &mut self.st else { unreachable!() };
+        let after = observe(v, &self.ri);
+        ex.tag(format!("reserve:{}", match r { R::Ok => "ok", R::Unsupported => "unsupported", R::Failed => "failed", R::Mismatch(..) => "mismatch" }));
+        if grown {
+            ex.tag("reserve-grown");
+        }
+        // ---- reserve law (implementation-only) ----
+        let mut bad = vec![];
+        match &r {
+            R::Ok | R::Mismatch(..) => {
+                if grown {
+                    self.monitor_grown(ex, line, &before, if matches!(r, R::Ok) { n } else { 0 });
+                } else if after != before {
+                    bad.push("state changed without growth".to_string());
+                }
+                if let R::Ok = r {
+                    if after.mem.len() - after.root_len.min(after.mem.len()) < n {
+                        bad.push(format!("Ok but the root has only {} spare bytes for {n}", after.mem.len() - after.root_len));
+                    }
+                    if let (Ok((_, li)), Ok((_, lu))) = (after.init, after.uninit) {
+                        if lu < li || lu - li < n {
+                            let sig = if reused { "F6:uninit-reused-view" } else { "C10:reserve" };
+                            ex.fail(sig, format!("{line} on {}: Ok but the view has buf_capacity {lu} - buf_len {li} < {n}", show_obs(&before)));
+                        }
+                    }
+                }
+                if let R::Mismatch(expected, reserved) = r {
+                    if expected != n || reserved == n || reserved != after.mem.len() - after.root_len {
+                        bad.push(format!("ExactSizeMismatch {{ expected: {expected}, reserved: {reserved} }} with spare {}", after.mem.len() - after.root_len));
+                    }
+                }
+            }
+            R::Unsupported | R::Failed => {
+                if after != before || grown {
+                    bad.push("refused but the state changed".to_string());
+                }
+            }
+        }
+        if !bad.is_empty() {
+            ex.fail("C10:reserve", format!("{line} on {}: {:?}: {}", show_obs(&before), r, bad.join("; ")));
+        }
+        match r {
+            R::Ok => format!("res:ok {}", self.state_line(ex, line)),
+            R::Mismatch(_, reserved) => format!("res:mismatch:{reserved} {}", self.state_line(ex, line)),
+            R::Unsupported => "res:unsupported".into(),
+            R::Failed => "res:failed".into(),
         }
     }
 }
@@ -837,7 +1211,8 @@ fn sibling_demo(w: &[&str], line: &str, ex: &mut Exec) -> String {
 // generators
 // ---------------------------------------------------------------------------------------------
 
-const KINDS: [&str; 6] = ["vec", "bytesmut", "arr", "boxed", "arrayvec", "smallvec"];
+const KINDS: [&str; 11] =
+    ["vec", "vec", "bytesmut", "bytesmut", "arr", "boxed", "arrayvec", "smallvec", "sref", "refvec", "boxvec"];
 
 fn gen_root(rng: &mut Rng, max_cap: usize) -> String {
     let kind = *rng.pick(&KINDS);
@@ -847,7 +1222,7 @@ fn gen_root(rng: &mut Rng, max_cap: usize) -> String {
         _ => rng.range(0, max_cap as u64) as usize,
     };
     let len = match kind {
-        "arr" | "boxed" => cap,
+        "arr" | "boxed" | "sref" => cap,
         _ => match rng.below(4) {
             0 => 0,
             1 => cap,
@@ -864,6 +1239,19 @@ fn fresh_bytes(rng: &mut Rng, k: usize) -> Vec<u8> {
     (0..k).map(|_| 0xE0 + rng.below(32) as u8).collect()
 }
 
+/// apply `l`; if it is a reserve / extend that has to grow the root, run it in probe mode (`?`) and return the
+/// line completed with the capacity the real container chose, so that the case carries the allocator's answer
+fn apply_resolving(m: &mut Machine, l: String, scratch: &mut Exec) -> String {
+    let o = safe_apply(m, &l, scratch);
+    if o == "res:need-cap" || o == "ext:grow" {
+        let o2 = safe_apply(m, &format!("{l} ?"), scratch);
+        if let Some(c) = o2.strip_prefix("res:cap-is:").or_else(|| o2.strip_prefix("ext:cap-is:")) {
+            return format!("{l} {c}");
+        }
+    }
+    l
+}
+
 /// one random single-buffer program; the generator runs the machine to pick in-range parameters
 fn gen_program(rng: &mut Rng, max_cap: usize) -> Vec<String> {
     let mut m = Machine::new();
@@ -871,8 +1259,7 @@ fn gen_program(rng: &mut Rng, max_cap: usize) -> Vec<String> {
     let mut lines = vec![];
     let push = |m: &mut Machine, lines: &mut Vec<String>, l: String, scratch: &mut Exec| {
         // the generator runs the real code to draw in-range parameters: never let it take the process down
-        safe_apply(m, &l, scratch);
-        lines.push(l);
+        lines.push(apply_resolving(m, l, scratch));
     };
     push(&mut m, &mut lines, gen_root(rng, max_cap), &mut scratch);
     let n_ops = rng.range(2, 9);
@@ -916,9 +1303,24 @@ fn gen_program(rng: &mut Rng, max_cap: usize) -> Vec<String> {
                     format!("flat {b1} {} {b2} {}", f(e1), f(e2))
                 }
             }
-        } else if choice < 70 {
+        } else if choice < 64 {
             let k = if hostile { lu + 1 } else if rng.chance(1, 6) { lu } else { rng.range(0, lu as u64) as usize };
             format!("fill {}", hex(&fresh_bytes(rng, k)))
+        } else if choice < 70 {
+            match rng.below(5) {
+                0 => "query".to_string(),
+                1 => "ensure".to_string(),
+                2 => {
+                    let a = rng.range(0, lu as u64) as usize;
+                    let b = rng.range(a as u64, lu as u64) as usize;
+                    let room = lu - (b - a);
+                    format!("copyw {a} {b} {}", rng.range(0, room as u64))
+                }
+                _ => {
+                    let n = rng.range(0, (lu.saturating_sub(li) + 6) as u64) as usize;
+                    format!("{} {n}", if rng.chance(1, 3) { "reservex" } else { "reserve" })
+                }
+            }
         } else if choice < 76 {
             format!("setlen {}", if hostile { lu + 1 } else { rng.range(0, lu as u64) as usize })
         } else if choice < 81 {
@@ -928,12 +1330,34 @@ fn gen_program(rng: &mut Rng, max_cap: usize) -> Vec<String> {
         } else if choice < 87 {
             "clear".to_string()
         } else if choice < 93 {
-            let k = rng.range(0, (lu.saturating_sub(li) + 1) as u64) as usize;
+            let extra = if rng.chance(1, 3) { 5 } else { 1 };
+            let k = rng.range(0, (lu.saturating_sub(li) + extra) as u64) as usize;
             format!("{} {}", if rng.chance(1, 2) { "extend" } else { "wwrite" }, hex(&fresh_bytes(rng, k)))
-        } else if choice < 97 && depth > 0 {
+        } else if choice < 95 && depth > 0 {
             "peel".to_string()
-        } else {
+        } else if choice < 97 {
             "reader".to_string()
+        } else {
+            match rng.below(6) {
+                0 => "query".to_string(),
+                1 => "ensure".to_string(),
+                2 => {
+                    // copy_within, mostly in range
+                    let a = rng.range(0, lu as u64) as usize;
+                    let b = rng.range(a as u64, lu as u64 + hostile as u64) as usize;
+                    let room = lu.saturating_sub(b - a);
+                    format!("copyw {a} {b} {}", rng.range(0, room as u64 + hostile as u64))
+                }
+                3 | 4 => {
+                    let n = match rng.below(8) {
+                        0 => HUGE,
+                        1 => 0,
+                        _ => rng.range(0, (lu.saturating_sub(li) + 6) as u64) as usize,
+                    };
+                    format!("{} {n}", if rng.chance(1, 3) { "reservex" } else { "reserve" })
+                }
+                _ => "query".to_string(),
+            }
         };
         push(&mut m, &mut lines, l, &mut scratch);
     }
@@ -945,6 +1369,74 @@ fn gen_program(rng: &mut Rng, max_cap: usize) -> Vec<String> {
 }
 
 /// exhaustive small space: every root kind at small capacities, one slice / uninit layer (or two), one or two fills
+/// run the lines on a scratch machine so that growing reserves / extends get the container's capacity answer
+fn resolve_case(lines: Vec<String>) -> Vec<String> {
+    let mut m = Machine::new();
+    let mut scratch = Exec::new();
+    lines.into_iter().map(|l| apply_resolving(&mut m, l, &mut scratch)).collect()
+}
+
+/// exhaustive small scope for the derived methods: every root kind (including the forwarding wrappers) at small
+/// capacities x every length x {no view, slice(b..), slice(b..e), uninit()} x {query / ensure_init / every
+/// copy_within / every reserve and reserve_exact request up to spare + 2 (+ the overflow request) / every
+/// extend_from_slice and Writer::write up to spare + 2}
+fn gen_exhaustive_methods(cases: &mut Vec<Case>, max_cap: usize) {
+    let mut id = 0;
+    for kind in ["vec", "bytesmut", "arr", "boxed", "arrayvec", "smallvec", "sref", "refvec", "boxvec"] {
+        let caps: Vec<usize> = if kind == "smallvec" { vec![8, 9] } else { (0..=max_cap).collect() };
+        for cap in caps {
+            let lens: Vec<usize> = if matches!(kind, "arr" | "boxed" | "sref") {
+                vec![cap]
+            } else if kind == "smallvec" {
+                vec![0, 6, cap]
+            } else {
+                (0..=cap).collect()
+            };
+            for len in lens {
+                let mem: Vec<u8> = (0..cap).map(|i| 0x10 + i as u8).collect();
+                let root = format!("root {kind} {len} {}", hex(&mem));
+                let mut views: Vec<Vec<String>> = vec![vec![], vec!["uninit".into()]];
+                for b in [0, len / 2, len] {
+                    views.push(vec![format!("slice {b} -")]);
+                    views.push(vec![format!("slice {b} {}", b.max(cap.saturating_sub(1)))]);
+                }
+                views.dedup();
+                for view in views {
+                    let spare = cap - len;
+                    let wcap = cap; // upper bound of any view's writable length
+                    let mut progs: Vec<Vec<String>> = vec![vec!["query".into(), "ensure".into(), "query".into(), "fill ee".into(), "query".into()]];
+                    let mut cw = vec![];
+                    for a in 0..=wcap.min(3) {
+                        for b in a..=wcap.min(3) {
+                            for d in 0..=wcap.min(3) {
+                                cw.push(format!("copyw {a} {b} {d}"));
+                            }
+                        }
+                    }
+                    for chunk in cw.chunks(8) {
+                        progs.push(chunk.to_vec());
+                    }
+                    for n in (0..=spare + 2).chain([HUGE]) {
+                        progs.push(vec![format!("reserve {n}"), "query".into(), "fill ee".into()]);
+                        progs.push(vec![format!("reservex {n}"), "query".into()]);
+                    }
+                    for k in 0..=spare + 2 {
+                        progs.push(vec![format!("extend {}", hex(&vec![0xE1; k])), format!("wwrite {}", hex(&vec![0xE2; k.min(2)]))]);
+                    }
+                    for prog in progs {
+                        let mut lines = vec![root.clone()];
+                        lines.extend(view.iter().cloned());
+                        lines.extend(prog);
+                        lines.push("end".into());
+                        cases.push(Case { name: format!("exm-{id}"), lines: resolve_case(lines) });
+                        id += 1;
+                    }
+                }
+            }
+        }
+    }
+}
+
 fn gen_exhaustive(cases: &mut Vec<Case>, max_cap: usize) {
     let mut id = 0;
     for kind in ["vec", "arr", "arrayvec", "bytesmut"] {
@@ -998,6 +1490,7 @@ fn generate(tier: &str, rng: &mut Rng) -> Vec<Case> {
         std::panic::set_hook(Box::new(|_| {}));
     }
     gen_exhaustive(&mut cases, if thorough { 5 } else { 3 });
+    gen_exhaustive_methods(&mut cases, if thorough { 4 } else { 2 });
     let n = if thorough { 60_000 } else { 2_500 };
     for i in 0..n {
         let max_cap = if rng.chance(1, 3) { 6 } else { 16 };
@@ -1016,6 +1509,7 @@ fn generate(tier: &str, rng: &mut Rng) -> Vec<Case> {
         });
     }
     vect::generate(tier, rng, &mut cases);
+    ro::generate(tier, rng, &mut cases);
     cases
 }
 
@@ -1023,6 +1517,10 @@ fn exec(case: &Case) -> Exec {
     let mut ex = Exec::new();
     if case.lines.first().map(|l| l.starts_with("vroot")).unwrap_or(false) {
         vect::exec(case, &mut ex);
+        return ex;
+    }
+    if case.lines.first().map(|l| l.starts_with("roroot") || l.starts_with("slicebytes")).unwrap_or(false) {
+        ro::exec(case, &mut ex);
         return ex;
     }
     let mut m = Machine::new();
